@@ -58,12 +58,12 @@ MUTANTS = [
     M("c05-neg-raw-payload-again", "C05", "break", [(OPS, "    data = torch.clamp(input._data, min=-torch.iinfo(input._data.dtype).max)\n    out_data = op(data, *args, **kwargs)", "    out_data = op(input._data, *args, **kwargs)")], "C05.R17"),
     M("c05-neg-clamp-wrong-bound", "C05", "break", [(OPS, "    data = torch.clamp(input._data, min=-torch.iinfo(input._data.dtype).max)", "    data = torch.clamp(input._data, min=torch.iinfo(input._data.dtype).min)")], "C05.R17"),
     M("c05-refactor-neg-clamp-method", "C05", "refactor", [(OPS, "    data = torch.clamp(input._data, min=-torch.iinfo(input._data.dtype).max)", "    data = input._data.clamp(min=-127)")]),
-    M("c05-linear-weight-guard-dropped", "C05", "break", [("optimum/quanto/tensor/qtensor_func.py", "    if isinstance(other, QBytesTensor) and other.axis is not None and (other.ndim != 2 or other.axis != 0):\n        other = other.dequantize()\n", "")], "C05.R14"),
-    M("c07-linear-weight-guard-dropped", "C07", "break", [("optimum/quanto/tensor/qtensor_func.py", "    if isinstance(other, QBytesTensor) and other.axis is not None and (other.ndim != 2 or other.axis != 0):\n        other = other.dequantize()\n", "")], "C07.R1"),
+    M("c05-linear-weight-guard-dropped", "C05", "break", [("optimum/quanto/tensor/qtensor_func.py", "    if isinstance(other, QBytesTensor) and (other.ndim != 2 or other.axis not in (None, 0)):\n        other = other.dequantize()\n", "")], "C05.R14"),
+    M("c07-linear-weight-guard-dropped", "C07", "break", [("optimum/quanto/tensor/qtensor_func.py", "    if isinstance(other, QBytesTensor) and (other.ndim != 2 or other.axis not in (None, 0)):\n        other = other.dequantize()\n", "")], "C07.R1"),
     M("c05-linear-input-guard-dropped", "C05", "break", [("optimum/quanto/tensor/qtensor_func.py", "    if isinstance(input, QBytesTensor) and input.axis is not None:\n        input = input.dequantize()\n", "")], "C05.R14"),
-    M("c05-linear-weight-guard-wrong-axis", "C05", "break", [("optimum/quanto/tensor/qtensor_func.py", "(other.ndim != 2 or other.axis != 0)", "(other.ndim != 2 or other.axis == 0)")], "C05.R14"),
-    M("c05-refactor-linear-guards-merged", "C05", "refactor", [("optimum/quanto/tensor/qtensor_func.py", "    if isinstance(other, QBytesTensor) and other.axis is not None and (other.ndim != 2 or other.axis != 0):\n        other = other.dequantize()\n", "    if isinstance(other, QBytesTensor) and not (other.axis is None or (other.ndim == 2 and other.axis == 0)):\n        other = other.dequantize()\n")]),
-    M("c11-refactor-linear-guards-merged", "C11", "refactor", [("optimum/quanto/tensor/qtensor_func.py", "    if isinstance(other, QBytesTensor) and other.axis is not None and (other.ndim != 2 or other.axis != 0):\n        other = other.dequantize()\n", "    if isinstance(other, QBytesTensor) and not (other.axis is None or (other.ndim == 2 and other.axis == 0)):\n        other = other.dequantize()\n")]),
+    M("c05-linear-weight-guard-wrong-axis", "C05", "break", [("optimum/quanto/tensor/qtensor_func.py", "(other.ndim != 2 or other.axis not in (None, 0))", "(other.ndim != 2 or other.axis in (None, 0))")], "C05.R14"),
+    M("c05-refactor-linear-guards-merged", "C05", "refactor", [("optimum/quanto/tensor/qtensor_func.py", "    if isinstance(other, QBytesTensor) and (other.ndim != 2 or other.axis not in (None, 0)):\n        other = other.dequantize()\n", "    if isinstance(other, QBytesTensor) and not (other.ndim == 2 and other.axis in (None, 0)):\n        other = other.dequantize()\n")]),
+    M("c11-refactor-linear-guards-merged", "C11", "refactor", [("optimum/quanto/tensor/qtensor_func.py", "    if isinstance(other, QBytesTensor) and (other.ndim != 2 or other.axis not in (None, 0)):\n        other = other.dequantize()\n", "    if isinstance(other, QBytesTensor) and not (other.ndim == 2 and other.axis in (None, 0)):\n        other = other.dequantize()\n")]),
     # ---------------- stride hazards (F35) and scale products (F36)
     M("c07-intmm-no-contiguous-again", "C07", "break", [("optimum/quanto/library/qbytes_mm.py", "    # torch._int_mm reads its first operand as a dense matrix: materialize expanded (stride 0) activations\n    activations = activations.contiguous()\n", "")], "C07.R5"),
     M("c07-int8pack-no-contiguous-again", "C07", "break", [("optimum/quanto/library/qbytes_mm.py", "    # and activations that are contiguous on their last dimension\n    activations = activations.contiguous()\n", "")], "C07.R5"),
@@ -106,4 +106,14 @@ MUTANTS = [
     M("c16-refactor-scale-bounded", "C16", "refactor", [("optimum/quanto/tensor/optimizers/absmax_optimizer.py", "        return rmax / qmax", "        return torch.clamp(rmax / qmax, max=torch.finfo(base.dtype).max / qmax)")]),
     M("c09-maxopt-single-dim", "C09", "break", [("optimum/quanto/tensor/optimizers/max_optimizer.py", "        dim = list(range(1, base.ndim)) if (axis == 0) else list(range(0, base.ndim - 1))", "        dim = -1 if (axis == 0) else 0")], "C09.R7"),
     M("c14-activation-scale-numel", "C14", "break", [("optimum/quanto/tensor/quantizers/symmetric.py", "scale.ndim > 0", "scale.numel() != 1")], "C14.R5"),
+    # ---- findings of the defect-hunting round (F41, F43, F44, F45) re-introduced, and behaviour-preserving variants of the repairs
+    M("c02-dequant-int8-again", "C02", "break", [("optimum/quanto/tensor/qbits/qbits.py", "shifted_data = unpacked.to(torch.int16) - t._zeropoint.to(torch.int16)", "shifted_data = unpacked.to(torch.int8) - t._zeropoint.to(torch.int8)")], "C02.R3"),
+    M("c02-refactor-dequant-int32", "C02", "refactor", [("optimum/quanto/tensor/qbits/qbits.py", "shifted_data = unpacked.to(torch.int16) - t._zeropoint.to(torch.int16)", "shifted_data = unpacked.to(torch.int32) - t._zeropoint.to(torch.int32)")]),
+    M("c14-affine-extent-guard-dropped", "C14", "break", [("optimum/quanto/tensor/quantizers/affine.py", "scale.ndim != base.ndim or scale.shape[axis] != base.shape[axis] or scale.numel() != base.shape[axis]", "scale.ndim != base.ndim or scale.numel() != base.shape[axis]")], "C14.R1"),
+    M("c14-affine-zeropoint-guard-dropped", "C14", "break", [("optimum/quanto/tensor/quantizers/affine.py", "            if zeropoint.shape != scale.shape:\n                raise ValueError(\"The zeropoint must have the same shape as the scale\")\n", "")], "C14.R1"),
+    M("c14-affine-guard-raises-runtimeerror", "C14", "break", [("optimum/quanto/tensor/quantizers/affine.py", "                raise ValueError(\"The zeropoint must have the same shape as the scale\")", "                raise RuntimeError(\"The zeropoint must have the same shape as the scale\")")], "C14.R2"),
+    M("c06-tocopy-int-dtype-to-scale-again", "C06", "break", [(OPS, "    if dtype is not None and not dtype.is_floating_point:\n        # The scale cannot be converted to an integer type: convert the dequantized values\n        return op(t.dequantize(), dtype=dtype, **kwargs)\n", "")], "C06.R4"),
+    M("c06-tocopy-memory-format-to-scale-again", "C06", "break", [(OPS, "    out_scale = op(t._scale, dtype=dtype, **scale_kwargs)", "    out_scale = op(t._scale, dtype=dtype, **kwargs)")], "C06.R4"),
+    M("c06-clone-memory-format-to-scale-again", "C06", "break", [(OPS, "    out_scale = op(t._scale)\n    return QBytesTensor(t.qtype, t.axis, t.size(), out_stride, out_data, out_scale)", "    out_scale = op(t._scale, memory_format=memory_format)\n    return QBytesTensor(t.qtype, t.axis, t.size(), out_stride, out_data, out_scale)")], "C06.R4"),
+    M("c05-linear-rank1-weight-again", "C05", "break", [("optimum/quanto/tensor/qtensor_func.py", "(other.ndim != 2 or other.axis not in (None, 0))", "(other.axis is not None and (other.ndim != 2 or other.axis != 0))")], "C05.R14"),
 ]
